@@ -583,24 +583,44 @@ def check_factories(ix, rep):
 
 # ------------------------------------------------------------------------------------------------- in_vars / out_vars
 def _union_terms(e, attr):
-    """children whose `<child>.<attr>` the expression unites: + and | chains, union(), copies (list / set / sorted / tuple / [:] / copy());
-    None as soon as an operator can drop a variable (^, &, -, a filter)"""
+    """children whose `<child>.<attr>` the expression unites, for expressions that again yield a *list* (every other node concatenates its
+    children's lists with `+`: a set or a tuple there raises TypeError in the parent).  + on lists, | / union() on sets, conversions between
+    them, copies.  None as soon as an operator can drop a variable (^, &, -, a filter) or the result is no list."""
+    r = _union_typed(e, attr)
+    if r is None or r[1] != 'list':
+        return None
+    return r[0]
+
+
+def _union_typed(e, attr):
     if isinstance(e, ast.Attribute) and e.attr == attr and isinstance(e.value, ast.Name):
-        return {e.value.id}
+        return {e.value.id}, 'list'
     if isinstance(e, ast.BinOp) and isinstance(e.op, (ast.Add, ast.BitOr)):
-        l, r = _union_terms(e.left, attr), _union_terms(e.right, attr)
-        return None if l is None or r is None else l | r
-    if isinstance(e, ast.Call) and isinstance(e.func, ast.Name) and e.func.id in ('list', 'set', 'sorted', 'tuple', 'frozenset') and len(e.args) == 1 and not e.keywords:
-        return _union_terms(e.args[0], attr)
+        l, r = _union_typed(e.left, attr), _union_typed(e.right, attr)
+        want = 'list' if isinstance(e.op, ast.Add) else 'set'
+        if l is None or r is None or l[1] != want or r[1] != want:
+            return None
+        return l[0] | r[0], want
+    if isinstance(e, ast.Call) and isinstance(e.func, ast.Name) and len(e.args) == 1 and not e.keywords:
+        inner = _union_typed(e.args[0], attr)
+        if inner is None:
+            return None
+        if e.func.id in ('list', 'sorted'):
+            return inner[0], 'list'
+        if e.func.id in ('set', 'frozenset'):
+            return inner[0], 'set'
+        return None
     if isinstance(e, ast.Call) and isinstance(e.func, ast.Attribute) and e.func.attr == 'union':
-        parts = [_union_terms(e.func.value, attr)] + [_union_terms(a, attr) for a in e.args]
-        return None if any(p is None for p in parts) else set().union(*parts)
+        parts = [_union_typed(e.func.value, attr)] + [_union_typed(a, attr) for a in e.args]
+        if any(p is None for p in parts) or parts[0][1] != 'set':
+            return None
+        return set().union(*[p[0] for p in parts]), 'set'
     if isinstance(e, ast.Call) and isinstance(e.func, ast.Attribute) and e.func.attr == 'copy' and not e.args:
-        return _union_terms(e.func.value, attr)
+        return _union_typed(e.func.value, attr)
     if isinstance(e, ast.Subscript) and isinstance(e.slice, ast.Slice) and e.slice.lower is None and e.slice.upper is None and e.slice.step is None:
-        return _union_terms(e.value, attr)
-    if isinstance(e, (ast.List, ast.Tuple)) and not e.elts:
-        return set()
+        return _union_typed(e.value, attr)
+    if isinstance(e, ast.List) and not e.elts:
+        return set(), 'list'
     return None
 
 
